@@ -219,7 +219,8 @@ fn plans_c15(tier: Tier) -> Vec<Plan> {
     let mut c1 = c.clone();
     c1.variant = 1;
     c1.topics = s(&["r/a", "r/b"]);
-    c1.filters = s(&["r/+", "r/a"]);
+    // (`r/a/#` also matches its parent level `r/a`)
+    c1.filters = s(&["r/+", "r/a", "r/a/#"]);
     v.push(Plan { cfg: c1.clone(), depth_by_devs: if q { vec![4] } else { vec![6, 5] } });
     // retained QoS 2 publishes of an MQTT 5 publisher (properties), window of 2
     let mut c2 = c1.clone();
@@ -346,6 +347,19 @@ fn plans_c20(tier: Tier) -> Vec<Plan> {
             let mut d = c.clone();
             d.variant = 100;
             v.push(Plan { cfg: d, depth_by_devs: vec![5, 4] });
+        }
+        if pub_v5 {
+            // one topic, two overlapping filters (two logs): the MQTT 5 subscriber holds
+            // both, a 3.1.1 subscriber one of them; both orders of the filter table
+            for desc in [false, true] {
+                let mut o = mk("C20", 2, 4, &["a/b"], &["a/b", "a/+"]);
+                o.v5 = vec![true, false, false, true, false];
+                o.order_desc = desc;
+                o.prelude.push(Act::Sub { c: 3, f: 0, qos: 1 });
+                o.prelude.push(Act::Sub { c: 3, f: 1, qos: 2 });
+                o.prelude.push(Act::Sub { c: 2, f: 1, qos: 1 });
+                v.push(Plan { cfg: o, depth_by_devs: if q { vec![2] } else { vec![4, 3] } });
+            }
         }
         // broker-side topic aliases, one wildcard subscription matching two topics
         let mut w = mk("C20", 100, 4, &["a/b", "a/c"], &["a/+"]);
